@@ -84,6 +84,72 @@ def two_runners(kind, same_key, first, slices):
     LAST_DETAIL = {"kind": kind, "same_key": same_key, "statuses": [s.value for s in st], "errors": errs, "schedule": res["schedule"], "why": why}
     return why is None
 
+def parent_task(x: int = 0) -> int:
+    return x
+
+def one_runner(kind, n_awaited, n_plain, limit, first, slices):
+    """ONE runner with several worker threads: a single poll (limit 1-3) over same-key invocations, some of them awaited by a
+    running parent (offered through the blocking list), the rest plain queue entries; every invocation the poll hands out is
+    started by its own worker thread (real run twins, interleaved). Never two RUNNING."""
+    global LAST_DETAIL
+    reset_uuid()
+    app = mk_app(kind, app_id="c06o" + kind, cached_status_time=0.0)
+    task = app.task(running_concurrency=CC.TASK)(work); warm_task(task)
+    ptask = app.task(parent_task); warm_task(ptask)
+    o = app.orchestrator
+    ctx = runner_ctx("r1"); other = runner_ctx("r2")
+    invs = [task("a", i) for i in range(n_awaited + n_plain)]
+    ids = [i.invocation_id for i in invs]
+    if n_awaited:
+        p = ptask(1)
+        while True:
+            x = app.broker.retrieve_invocation()
+            if x is None:
+                break
+        for iid in ids[n_awaited:]:
+            app.broker.route_invocation(iid)
+        for st in (St.PENDING, St.RUNNING):
+            o.set_invocation_status(p.invocation_id, st, other)
+        o.waiting_for_results(p.invocation_id, ids[:n_awaited])
+    got = list(o.get_invocations_to_run(limit, ctx))
+    handed = [g.invocation_id for g in got]
+    def worker(inv):
+        try:
+            yield from inv.run__gen(ctx)
+        except Hold:
+            pass
+    actors = [coop.Actor(f"thread{i}", worker(g)) for i, g in enumerate(got)]
+    # the schedule only matters when the poll handed out more than one invocation (on a correct poll it never does for one key)
+    res = coop.run_schedule(actors, first, slices) if len(actors) > 1 else (coop.run_schedule(actors, 0, []) if actors else {"deadlock": False, "schedule": []})
+    coop.close_all_connections()
+    st = [o.get_invocation_status(i) for i in ids]
+    errs = [repr(x.error) for x in actors if x.error is not None]
+    n_running = sum(1 for s_ in st if s_ == St.RUNNING)
+    why = None
+    if errs or res["deadlock"]:
+        why = "C06:one-runner:start-raised-or-deadlock"
+    elif n_running > 1:
+        why = "C06:one-runner-two-threads:two-running-same-key"
+    elif ids and n_running == 0 and limit >= 1:
+        why = "C06:one-runner:nothing-runs"
+    LAST_DETAIL = {"kind": kind, "awaited": n_awaited, "plain": n_plain, "limit": limit, "handed_out": [x[-4:] for x in handed],
+                   "statuses": [s_.value for s_ in st], "errors": errs, "schedule": res["schedule"], "why": why}
+    return why is None
+
+def one_runner___KIND__(n_awaited: int, n_plain: int, limit: int, first: int, k1: int, k2: int) -> bool:
+    """
+    pre: 0 <= n_awaited <= 2 and 0 <= n_plain <= 2 and 1 <= limit <= 3 and 0 <= first <= 1 and 0 <= k1 <= OKMAX and 0 <= k2 <= OKMAX
+    post: _
+    """
+    n_awaited = pick(n_awaited, 0, 2); n_plain = pick(n_plain, 0, 2); limit = pick(limit, 1, 3)
+    if n_awaited + n_plain == 0:
+        return True
+    with NoTracing():
+        return two_runners_guard(lambda: one_runner(["mem", "sqlite"][__KIND__], n_awaited, n_plain, limit, first, [k1, k2]))
+
+def two_runners_guard(fn):
+    return fn()
+
 def diff_keys___KIND__(k1: int, k2: int) -> bool:
     """
     pre: 0 <= k1 <= KMAX and 0 <= k2 <= K2MAX
@@ -118,13 +184,15 @@ def run(ctx: Ctx) -> None:
         base, rest = SRC.split("def finding_same_key___KIND_____LO__")
         fsrc = "def finding_same_key___KIND_____LO__" + rest
         src = base
-        conds = [Cond(f"diff_keys_{kind}", "confirm", 3000, keyfn=_key_from_replay)]
+        conds = [Cond(f"diff_keys_{kind}", "confirm", 3000, keyfn=_key_from_replay), Cond(f"one_runner_{kind}", "confirm", 3000, keyfn=_key_from_replay)]
         if kind == 0 or thorough:
             for lo in range(0, kmax + 1, 18):
                 src += fsrc.replace("__LO__", str(lo)).replace("__HI__", str(min(kmax, lo + 17)))
                 conds.append(Cond(f"finding_same_key_{kind}_{lo}", "finding", 1500, key=key, keyfn=_key_from_replay, what=what))
-        src = src.replace("__KIND__", str(kind)).replace("K2MAX", str(k2max)).replace("KMAX", str(kmax))
+        src = src.replace("__KIND__", str(kind)).replace("OKMAX", "35").replace("K2MAX", str(k2max)).replace("KMAX", str(kmax))
         ctx.ch_batch(f"c06sched_{name}", src, conds)
     ctx.bounds["two runners"] = (f"2 runner actors (real poll twin + real run twin): same key (TASK) - 2 preemptions, slices 0..{kmax} "
                                  f"({'both backends' if thorough else 'in-memory stack'}); different keys (KEYS) - {'2 preemptions' if thorough else '1 preemption'}, both backends")
+    ctx.bounds["one runner, several worker threads"] = ("same key (TASK): 0-2 invocations awaited by a running parent (blocking list) + 0-2 plain queue entries, one poll with limit 1-3, "
+                                                        "every invocation handed out is started by its own worker thread (run twins, first actor + 2 preemptions 0..35); both backends")
     ctx.functions_encoded += ["BaseOrchestrator.get_invocations_to_run twins + DistributedInvocation.run twin, two interleaved runners"]
